@@ -2,6 +2,7 @@
 from ..rules_tables import Tables, T4_edges, T5_T6_cost_depth
 from ..rules_flow import Flow, P_rules, P6_conservation
 from ..rules_alias import A4_params
+from ..rules_conv import B5_label_order, A9_circuit_truthiness
 
 FQ = "stabilizer_circuits.compress_preparation_circuit"
 
@@ -16,8 +17,11 @@ def run(tree, rep, tier):
     T4_edges(rep, T, T.adv_stab)
     P6_conservation(rep, flow, [FQ], tables=T)
     T5_T6_cost_depth(rep, T, T.adv_stab)
+    B5_label_order(rep, flow, [FQ])
+    A9_circuit_truthiness(rep, flow, [FQ])
     rep.rules["P1"]["floor"] = 3
     rep.trusted += ["Q1", "Q2", "Q3", "Q4"]
     rep.decided += ["the input circuit object is never mutated (A4)", "the output obeys the connectivity (P1, P2, T4)",
-                    "the output's two-qubit cost is the class cost whatever the input's length: the caller's circuit is not a leaf of the result (P6) and the cost column is true (T5)"]
+                    "the output's two-qubit cost is the class cost whatever the input's length: the caller's circuit is not a leaf of the result (P6) and the cost column is true (T5)",
+                    "within the call closure, Pauli-string exports reach Qiskit-order consumers in Qiskit order and library-order consumers in library order (B5), and no truth-value test of the circuit parameter rejects the zero-gate circuit (A9)"]
     rep.not_decided += ["the compressed circuit prepares the same state up to global phase (value-level)"]
